@@ -351,6 +351,9 @@ func (wk *worker) frameSweep(pi, d int) {
 	if len(b) > 400 {
 		sp = sweepSpec{FieldSample: 6000, Trunc: len(b) <= 4096, Flips: 64}
 	}
+	if !wk.thorough {
+		sp.Flips = 32
+	}
 	sweep(b, sp, r, func(in []byte, m mut) {
 		if m.O >= hl && len(in) >= hl {
 			wk.frameEPsRot(cl, in, m, 0, true, m.O+m.W)
@@ -379,12 +382,19 @@ func (wk *worker) frameSweep(pi, d int) {
 			continue
 		}
 		oi := i
-		for j := 0; j < 8; j++ {
+		nsp, rot := 8, -1
+		if !wk.thorough {
+			nsp = 3 // quick tier: 3 splices per partner, two paths each
+		}
+		for j := 0; j < nsp; j++ {
 			s := splice(b, ob, r)
 			m := mut{Class: mcSplice, O: oi, W: j}
-			wk.frameEPs(cl, s, m, 0, false)
+			if !wk.thorough {
+				rot = j
+			}
+			wk.frameEPsRot(cl, s, m, 0, false, rot)
 			if len(s) >= hl {
-				wk.bodyEPs(cl, s[hl:], m, 0, &bf)
+				wk.bodyEPsRot(cl, s[hl:], m, 0, &bf, rot)
 			}
 		}
 	}
